@@ -356,7 +356,28 @@ pub struct Crafted {
 pub fn craft_exact(n: usize, target: i64, style: u32, rng: &mut ChaCha20Rng) -> Option<Crafted> {
     let psi = spec::find_psi(n);
     for _attempt in 0..50 {
-        let s2: Vec<i64> = match if style >= 100 { 99 } else { style % 4 } {
+        let s2: Vec<i64> = match if style >= 200 { 98 } else if style >= 100 { 99 } else { style % 4 } {
+            98 => {
+                // "lopsided": s2 carries most of the norm. Every spare bit of the body is spent on
+                // coefficients of magnitude 230..255 (one extra bit each); the rest is tiny
+                let l = if n == 512 { 625 } else { 1239 };
+                let big = 8 * l - 9 * n - 2;
+                let mut v: Vec<i64> = (0..n)
+                    .map(|i| {
+                        let m = if i < big { rng.gen_range(230..=255) } else { rng.gen_range(0..20) };
+                        if rng.gen() {
+                            m
+                        } else {
+                            -m
+                        }
+                    })
+                    .collect();
+                for k in (1..n).rev() {
+                    let j = rng.gen_range(0..=k);
+                    v.swap(k, j);
+                }
+                v
+            }
             99 => {
                 // "tight": the encoding uses exactly 8L - t bits (t = style - 100): every
                 // coefficient of magnitude 128..255 costs one extra bit
